@@ -62,8 +62,8 @@ CHECKS = {
    text="Runtime monitoring through CPython: for every exported class and many sizes, len() and obj[i] over valid, negative, out-of-range and huge indices are compared with the logical model; memoryview format / shape / strides are checked and every element is read through them from the raw storage; views taken before the object is reused for scoring are checked against the object's current storage (address comparison via PyObject_GetBuffer); thorough re-runs under valgrind.",
    note="one open known finding (memoryview left dangling when calculate() reallocates); system CPython 3.11", ref="DESIGN.md section 3 C18"),
  "C19": dict(tech="model-based monitor (Vec<Vec<T>> model) of random operation histories, alignment and stride invariants asserted after every op",
-   text="Runtime monitoring: random operation histories on DenseMatrix<T,C> for 4 element types x 7 column counts against a Vec<Vec<T>> model; contents, iteration order, equality semantics, row alignment and stride checked after every operation.",
-   note="x86_64 alignment (32 bytes) only", ref="DESIGN.md section 3 C19"),
+   text="Runtime monitoring: random operation histories on DenseMatrix<T,C> for 6 element types (u8, u32, f32, i64 and two user-defined ones of 4 and 3 bytes) x 7 column counts against a Vec<Vec<T>> model; contents, iteration order, equality semantics, row alignment and stride checked after every operation.",
+   note="x86_64 alignment (32 bytes) only; one open known finding (element sizes that do not divide the padded row size: stride() / fill())", ref="DESIGN.md section 3 C19"),
 }
 
 def main():
